@@ -27,3 +27,40 @@ pub fn spec_uint(content: &[u8]) -> u64 {
     }
     v
 }
+
+/// Stub for `<f64 as FromStr>::from_str` (S2): Rust's dec2flt is out of CBMC's reach; the numeric value of a
+/// decimal REAL is outside every claim.  Returns an arbitrary float or an error.
+pub fn stub_f64_from_str(_s: &str) -> Result<f64, core::num::ParseFloatError> {
+    if kani::any() {
+        Ok(kani::any())
+    } else {
+        // a ParseFloatError can only be obtained from a real parser; f32's is not stubbed and rejects "" in O(1)
+        Err("".parse::<f32>().unwrap_err())
+    }
+}
+
+/// Stub for `core::str::from_utf8` (S3b): accept or reject arbitrarily (over-approximates validation).
+pub fn stub_from_utf8(b: &[u8]) -> Result<&str, core::str::Utf8Error> {
+    if kani::any() {
+        Ok(unsafe { core::str::from_utf8_unchecked(b) })
+    } else {
+        let mut bad = [0xffu8];
+        Err(core::str::from_utf8_mut(&mut bad).map(|_| ()).unwrap_err())
+    }
+}
+
+/// Minimal two's complement content octets of `v` (X.690 8.3.2), big endian, returned right-aligned in 8 octets.
+pub fn spec_int_content(v: i64) -> ([u8; 8], usize) {
+    let be = v.to_be_bytes();
+    let mut skip = 0;
+    while skip < 7 {
+        let b = be[skip];
+        let next_hi = be[skip + 1] & 0x80;
+        if (b == 0x00 && next_hi == 0) || (b == 0xff && next_hi != 0) {
+            skip += 1;
+        } else {
+            break;
+        }
+    }
+    (be, 8 - skip)
+}
